@@ -42,10 +42,11 @@ pub fn spell_value(rec: &Value, rng: &mut Rng) -> String {
         "nan" => rng.pick(&["NaN", "nan"]).to_string(),
         "inf" => rng.pick(&["inf", "-inf", "infinity"]).to_string(),
         "empty" => rng.pick(&["", "   "]).to_string(),
-        "garbage" => rng.pick(&["abc", "1x", "--1", "1,5"]).to_string(),
+        "garbage" => rng.pick(&["abc", "1x", "--1"]).to_string(),
         "cmt" => format!("{vi} // c"),
         "colon" => format!("{vi}:7"),
         "str" => pad(gets(rec, "vs").to_string(), rng),
+        "bm" => ["1000,2000,3000", "5", "", "1, 2", "x,7,-3"][vi as usize - 1].to_string(),
         c => panic!("class {c}"),
     }
 }
@@ -129,7 +130,7 @@ pub fn proj_general(g: &General) -> Value {
         "CountdownOffset": g.countdown_offset})
 }
 pub fn proj_editor(e: &Editor) -> Value {
-    json!({"DistanceSpacing": sc(e.distance_spacing), "BeatDivisor": e.beat_divisor, "GridSize": e.grid_size, "TimelineZoom": sc(e.timeline_zoom)})
+    json!({"Bookmarks": e.bookmarks, "DistanceSpacing": sc(e.distance_spacing), "BeatDivisor": e.beat_divisor, "GridSize": e.grid_size, "TimelineZoom": sc(e.timeline_zoom)})
 }
 pub fn proj_metadata(m: &Metadata) -> Value {
     json!({"Title": m.title, "TitleUnicode": m.title_unicode, "Artist": m.artist, "ArtistUnicode": m.artist_unicode,
@@ -291,7 +292,7 @@ fn keys_of(sec: &str) -> Vec<(&'static str, &'static str)> {
                           ("StackLeniency", "f"), ("Mode", "mode"), ("LetterboxInBreaks", "flag"), ("SpecialStyle", "flag"),
                           ("WidescreenStoryboard", "flag"), ("EpilepsyWarning", "flag"), ("SamplesMatchPlaybackRate", "flag"),
                           ("Countdown", "countdown"), ("CountdownOffset", "i32")],
-        "Editor" => vec![("DistanceSpacing", "f"), ("BeatDivisor", "i32"), ("GridSize", "i32"), ("TimelineZoom", "f")],
+        "Editor" => vec![("Bookmarks", "bookmarks"), ("DistanceSpacing", "f"), ("BeatDivisor", "i32"), ("GridSize", "i32"), ("TimelineZoom", "f")],
         "Metadata" => vec![("Title", "str"), ("TitleUnicode", "str"), ("Artist", "str"), ("ArtistUnicode", "str"), ("Creator", "str"),
                            ("Version", "str"), ("Source", "str"), ("Tags", "str"), ("BeatmapID", "i32"), ("BeatmapSetID", "i32")],
         _ => vec![("HPDrainRate", "f"), ("CircleSize", "f"), ("OverallDifficulty", "od"), ("ApproachRate", "ar"), ("SliderMultiplier", "sm"),
@@ -320,6 +321,8 @@ fn random_record(sec: &str, rng: &mut Rng) -> Value {
             let (k, ty) = *rng.pick(&keys);
             let (vc, vi, vs): (&str, i64, &str) = if ty == "str" || ty == "path" {
                 if rng.chance(1, 6) { ("empty", 0, "") } else { ("str", 0, *rng.pick(&["a", "a b", "x:y", "p\\q", "Soft", "[General]", "osu file format v9"])) }
+            } else if ty == "bookmarks" && rng.chance(2, 3) {
+                ("bm", 1 + rng.below(5) as i64, "")
             } else if (ty == "bank" || ty == "countdown") && rng.chance(1, 3) {
                 ("str", 0, *rng.pick(&["Soft", "Half speed", "Normal", "Drum", "None", "soft"]))
             } else {
@@ -332,7 +335,7 @@ fn random_record(sec: &str, rng: &mut Rng) -> Value {
                     5 => ("cmt", 2, ""),
                     6 => ("colon", 2, ""),
                     7 | 8 => ("float", *rng.pick(&[25, 950, 30, 1000, 45, 360, 395]), ""),
-                    9 if matches!(ty, "i32" | "flag" | "mode") => (*rng.pick(&["max", "min", "over", "under"]), 0, ""),
+                    9 if matches!(ty, "i32" | "flag" | "mode" | "bookmarks") => (*rng.pick(&["max", "min", "over", "under"]), 0, ""),
                     _ => ("int", *rng.pick(&[0, 1, 2, 3, 5, -1, 8, 9]), ""),
                 }
             };
